@@ -214,11 +214,16 @@ class Categorize(Factory, Container):
             if not isinstance(q, (basestring, bool)):
                 raise TypeError(f"function return value ({q}) must be a string or bool")
 
-            if q not in self.bins:
-                self.bins[q] = self.value.zero()
-            self.bins[q].fill(datum, weight)
+            newbin = None
+            if q in self.bins:
+                self.bins[q].fill(datum, weight)
+            else:
+                newbin = self.value.zero()
+                newbin.fill(datum, weight)
 
             # no possibility of exception from here on out (for rollback)
+            if newbin is not None:
+                self.bins[q] = newbin
             self.entries += weight
 
     def _numpy(self, data, weights, shape):
